@@ -131,6 +131,22 @@ def factory_closures(repo):
         eng = Engine(model, unroll=1, comp_unroll=1)
         outs = eng.run_function(fi.node, {})
         rets = [o for o in outs if o.kind == RETURN]
+        # functools.partial(<module-level function>, tol): the rounder is that function with its leading parameters bound (positional-only, or the
+        # user's keywords could collide with them: K-CAPTURE)
+        pv = rets[0].val if rets else None
+        if pv is not None and pv[0] == 'call' and pv[1][0] == 'lib' and pv[1][1].split('.')[-1] == 'partial' and pv[2] and pv[2][0][0] == 'lib' \
+                and all(r.val == pv for r in rets) and not (len(pv) > 3 and pv[3]):
+            target = m.functions.get(pv[2][0][1].split('.')[-1])
+            if target is not None:
+                env = dict(rets[0].st.env)
+                pnames = [a.arg for a in target.node.args.posonlyargs + target.node.args.args]
+                for a, v in zip(pnames, pv[2][1:]):
+                    env[a] = v
+                res.append((fi, target.node, env, eng, True))
+                for nm, v in rets[0].st.env.items():
+                    if isinstance(v, tuple) and v and v[0] == 'closure':
+                        res.append((fi, eng._closures[v[2]][0], rets[0].st.env, eng, False))
+                continue
         if not rets or any(r.val[0] != 'closure' or r.val[:2] != rets[0].val[:2] for r in rets):
             raise AnalysisError('%s does not return a single nested function' % fi.qual)
         env = rets[0].st.env
@@ -138,6 +154,19 @@ def factory_closures(repo):
             if isinstance(v, tuple) and v and v[0] == 'closure':
                 node = eng._closures[v[2]][0]
                 res.append((fi, node, env, eng, v == rets[0].val))
+    # module-level helpers the rounders call (a hoisted `_around(iterable, tol)`) are rounders' code too: each is analysed on its own, like a nested helper
+    have = set(id(r[1]) for r in res)
+    todo = list(res)
+    while todo:
+        fi, node, env, eng, _main = todo.pop()
+        for c in ast.walk(node):
+            if isinstance(c, ast.Call) and isinstance(c.func, ast.Name) and c.func.id in m.functions and c.func.id not in FACTORIES:
+                h = m.functions[c.func.id]
+                if id(h.node) not in have:
+                    have.add(id(h.node))
+                    item = (fi, h.node, env, eng, False)
+                    res.append(item)
+                    todo.append(item)
     return m, res
 
 
@@ -160,6 +189,32 @@ def rule_R_GUARD_STR_KW(ctx, repo):
             if is_main and o.kind == RETURN and own_va is not None and own_kw is not None and o.val == ('tuple', (own_va, own_kw)):
                 truth = o.st.facts.get('truth', {})
                 empty = truth.get(own_va) is False and truth.get(own_kw) is False
+                if not empty:
+                    # ... or when every element was looked at with the very test that guards the rounding and none was a float: the function walks
+                    # *args and the values of **kwds in unconditional loops before this return, and everything this path knows about their elements is
+                    # `isinstance(element, float)` being false (a lazy copy: nothing to round, nothing rebuilt)
+                    def walks(fn, what):
+                        for st_ in fn.body:
+                            if isinstance(st_, ast.Return):
+                                break
+                            if isinstance(st_, ast.For):
+                                it = st_.iter
+                                if isinstance(it, ast.Call) and isinstance(it.func, ast.Name) and it.func.id in ('enumerate', 'iter', 'list', 'tuple') and it.args:
+                                    it = it.args[0]
+                                if what == 'args' and isinstance(it, ast.Name) and it.id == fn.args.vararg.arg:
+                                    return True
+                                if what == 'kwds' and isinstance(it, ast.Call) and isinstance(it.func, ast.Attribute) and it.func.attr in ('items', 'values') \
+                                        and isinstance(it.func.value, ast.Name) and it.func.value.id == fn.args.kwarg.arg:
+                                    return True
+                        return False
+                    facts_ok = True
+                    for t, b in truth.items():
+                        if not (contains_term(t, lambda x: x == own_va) or contains_term(t, lambda x: x == own_kw)):
+                            continue
+                        isf = t[0] == 'call' and t[1] == ('lib', 'isinstance') and len(t[2]) == 2 and class_names(t[2][1]) == ('float',)
+                        if not (isf and b is False) and t not in (own_va, own_kw):
+                            facts_ok = False
+                    empty = facts_ok and walks(node, 'args') and walks(node, 'kwds')
                 ctx.ob('R-ROUND', '%s returns its inputs untouched only when they are empty' % node.name, empty)
                 if not empty:
                     conds = ['%s is %s' % (render(t)[:60], b) for t, b in truth.items()][:3]
